@@ -11,6 +11,7 @@ from __future__ import annotations
 
 import itertools
 import json
+import re
 import sqlite3
 
 from mc.common import Result, h64
@@ -57,10 +58,17 @@ SELECT_ALPHA = [
     ("prewhere", ["prewhere", ["cmp", "<>", f("t", "b"), raw(11)]]),
     ("group", ["with_totals"]),
     ("from2", ["from", U]),
+    ("group", ["rollup", [f("t", "s")]]),  # (before the next grouping call: rollup, groupby, rollup is a possible sequence)
     # columns given by name (bound to the statement's first FROM table whatever is called in between)
     ("group", ["groupby", [["name", "k"]]]),
     ("order", ["orderby", [["name", "k"]], "asc"]),
     ("select", ["select", [["name", "k"]]]),
+    # ROLLUP (standard and MySQL flavour) among the grouping calls
+    ("group", ["rollup", [f("t", "id")]]),
+    ("group", ["rollup", [f("t", "b")], {"vendor": "mysql"}]),
+    # open-ended slices
+    ("offset", ["slice", 4, None]),
+    ("limit", ["slice", None, 6]),
     # SQL Server only
     ("top", ["top", 5]),
     ("limit", ["fetch_next", 4]),
@@ -194,6 +202,12 @@ def expand(chunk):
         if (comb[0] if comb else -1) != chunk["first"]:
             continue
         yield {"d": d, "kind": kind, "comb": comb}
+    if kind == "select" and chunk["size"] == 3 and chunk["first"] == 0:
+        # quick tier: a complete SELECT plus every three calls of the grouping / ordering / paging families (three chained calls of
+        # one family, ROLLUP with HAVING, slices with limit and offset)
+        tail = [i for i, (fam, c) in enumerate(alpha) if fam in ("group", "having", "order", "limit", "offset") and i != 0]
+        for three in itertools.combinations(tail, 3):
+            yield {"d": d, "kind": kind, "comb": [0] + list(three)}
 
 
 # ---- oracles ---------------------------------------------------------------------------------------------------------
@@ -245,7 +259,10 @@ def check_skeleton(sql, lexd, kind):
         elif w == "INTO" and stmt == "INSERT":
             continue
         elif w == "WITH" and j > 0:
-            continue  # WITH TOTALS / WITH ROLLUP modifiers of GROUP BY
+            # WITH TOTALS / WITH ROLLUP are modifiers of GROUP BY: they follow its item list directly
+            if seq and seq[-1] != "GROUP":
+                return "clause-order:WITH-after-%s" % seq[-1]
+            continue
         elif w == "FROM" and stmt == "DELETE" and j == 1:
             seq.append("FROM")
         elif w == "UPDATE" and j > 0:
@@ -290,6 +307,18 @@ FAMILY_WORDS = {"where": ["WHERE"], "prewhere": ["PREWHERE"], "having": ["HAVING
                 "returning": ["RETURNING"], "with": ["WITH"], "force_index": ["FORCE"], "use_index": ["USE"], "for_update": ["FOR"]}
 
 
+def _top_word(toks, word):
+    depth = 0
+    for i, t in enumerate(toks):
+        if t.kind == "OP" and t.text == "(":
+            depth += 1
+        elif t.kind == "OP" and t.text == ")":
+            depth -= 1
+        elif depth == 0 and t.kind == "WORD" and t.value == word:
+            return i
+    return None
+
+
 def check_presence(sql, lexd, kind, d, calls):
     toks = lex(sql, lexd)
     words = {t.value for t in toks if t.kind == "WORD"}
@@ -304,6 +333,25 @@ def check_presence(sql, lexd, kind, d, calls):
         return "clause-missing:OFFSET"
     if d in ("mssql", "oracle") and "OFFSET" in words and "ROWS" not in words:
         return "clause-shape:OFFSET"
+    # items of one clause in call order: each call of the family names its own column
+    for fam, word in (("group", "GROUP"), ("order", "ORDER"), ("select", "SELECT")):
+        cols = []
+        for f_, c in calls:
+            if f_ == fam and c[0] != "with_totals":
+                js = json.dumps(c)
+                m = re.search(r'\["f", "\w+", "(\w+)"\]|\["name", "(\w+)"\]', js)
+                if m:
+                    cols.append(m.group(1) or m.group(2))
+        if len(cols) > 1 and len(set(cols)) == len(cols):
+            start = _top_word(toks, word)
+            if start is None:
+                continue
+            posn = []
+            for col in cols:
+                idx = [i for i, t in enumerate(toks) if i > start and t.kind == "ID" and t.value == col]
+                posn.append(idx[0] if idx else -1)
+            if -1 not in posn and posn != sorted(posn):
+                return "item-order:%s" % word
     # conjuncts in call order: each criterion call carries its own numeric literal
     for fam in ("where", "prewhere", "having"):
         marks = []
@@ -314,7 +362,7 @@ def check_presence(sql, lexd, kind, d, calls):
                     marks.append(int(nums[-1]))
         if len(marks) > 1:
             posn = []
-            start = next((i for i, t in enumerate(toks) if t.kind == "WORD" and t.value == fam.upper()), 0)
+            start = _top_word(toks, fam.upper()) or 0
             for m in marks:
                 idx = [i for i, t in enumerate(toks) if i > start and t.kind == "NUM" and t.value == m]
                 posn.append(idx[0] if idx else -1)
@@ -370,7 +418,7 @@ def sqlite_accepts(sql):
         return str(e)
 
 
-SQLITE_UNSUPPORTED = {"force_index", "use_index", "for_update", "prewhere", "with_totals", "returning"}
+SQLITE_UNSUPPORTED = {"force_index", "use_index", "for_update", "prewhere", "with_totals", "returning", "rollup"}
 
 
 def build_ddl(order):
